@@ -48,6 +48,20 @@ def _closure_subst(ap, captured):
     return ap
 
 
+def _strip_opt(projs):
+    """Provenance is followed modulo Option/Result wrapping: `x as Some .0` is the payload of x."""
+    out = []
+    i = 0
+    projs = tuple(projs)
+    while i < len(projs):
+        if projs[i] in ("as Some", "as Ok", "as Continue") and i + 1 < len(projs) and projs[i + 1] == "0":
+            i += 2
+            continue
+        out.append(projs[i])
+        i += 1
+    return tuple(out)
+
+
 class Walk:
     def __init__(self, F, crate):
         self.F, self.crate = F, crate
@@ -58,65 +72,94 @@ class Walk:
         gs = [g for g in self.F.by_crate[self.crate] if g.path == path]
         return gs[0] if len(gs) == 1 else None
 
-    def operand(self, fn, op, tr, depth):
-        """tr: access path of fn -> access path of the root function."""
+    def leaf(self, kind, what):
+        if (kind, repr(what)) not in self.seen:
+            self.seen.add((kind, repr(what)))
+            self.out.append((kind, what))
+
+    def operand(self, fn, op, tr, depth, suffix=()):
         if const_of(op) is not None:
             return
-        pl = place_of(op)
-        if pl is None:
-            self.out.append(("?", "operand %s" % str(op)[:60]))
+        if place_of(op) is None:
+            self.leaf("?", "operand %s" % str(op)[:60])
             return
-        self.place(fn, pl["l"], tr, depth)
+        self.ap(fn, fn.apath(op), tr, depth, suffix)
 
-    def place(self, fn, l, tr, depth):
-        key = (fn.id, l)
+    def ap(self, fn, ap, tr, depth, suffix=()):
+        """ap is an access path of fn as fn.apath gives it (call roots name blocks of fn)."""
+        root, projs = ap
+        projs = _strip_opt(tuple(projs) + tuple(suffix))
+        k = root[0]
+        key = (fn.id, repr(root), projs)
         if key in self.seen:
             return
         self.seen.add(key)
         if depth <= 0:
-            self.out.append(("?", "too deep in %s" % fn.path))
+            self.leaf("?", "too deep in %s" % fn.path)
             return
-        ds = fn.defs().get(l, [])
-        if not ds:
-            # a parameter (or upvar) of the function under the walk
-            ap = tr((("arg", l), ())) if 1 <= l <= fn.raw["arg_count"] else None
-            if ap is None or ap[0][0] == "arg":
-                self.out.append(("param", ap_str(ap) if ap else "_%d of %s" % (l, fn.path)))
-            else:
-                self.out.append(("value", ap_str(ap)))
-            return
-        for d in ds:
-            if d[0] == "call":
-                self.call(fn, d[1], d[2], tr, depth)
-            elif d[0] == "stmt":
-                rv = d[3]
-                k = rv["k"]
-                if k in ("use", "cast"):
-                    self.operand(fn, rv["a"], tr, depth)
-                elif k in ("ref", "rawptr"):
-                    self.place(fn, rv["place"]["l"], tr, depth)
-                elif k == "agg":
-                    if rv.get("agg") == "closure":
-                        self.out.append(("?", "closure value"))
-                    for o in rv["ops"]:
-                        self.operand(fn, o, tr, depth)
-                elif k in ("binop", "unop", "discr"):
-                    pass        # numbers and flags make no strings / structured values
+        if k == "arg":
+            t = tr((root, projs))
+            self.leaf("value", (t[0], _strip_opt(t[1])))
+        elif k == "local":
+            ds = fn.defs().get(root[1], [])
+            if not ds:
+                self.leaf("?", "_%d of %s has no definition" % (root[1], fn.path))
+            for d in ds:
+                if d[0] == "call":
+                    self.call(fn, d[1], d[2], tr, depth - 1, projs)
+                elif d[0] == "stmt":
+                    rv = d[3]
+                    kk = rv["k"]
+                    if kk in ("use", "cast"):
+                        self.operand(fn, rv["a"], tr, depth - 1, projs)
+                    elif kk in ("ref", "rawptr"):
+                        self.ap(fn, fn.apath_place(rv["place"]), tr, depth - 1, projs)
+                    elif kk == "agg":
+                        self.aggregate(fn, rv.get("agg") == "closure", [fn.apath(o) for o in rv["ops"]], tr, depth - 1, projs)
+                    elif kk in ("binop", "unop", "discr"):
+                        pass
+                    else:
+                        self.leaf("?", "rvalue %s" % kk)
                 else:
-                    self.out.append(("?", "rvalue %s" % k))
+                    self.leaf("?", "definition %s" % d[0])
+        elif k == "call":
+            t = fn.blocks[root[3]]["term"] if isinstance(root[3], int) and root[3] < len(fn.blocks) else None
+            if t is None or t["k"] != "call":
+                self.leaf("?", "call %s not found again in %s" % (root[1][:60], fn.path))
             else:
-                self.out.append(("?", "definition %s" % d[0]))
+                self.call(fn, root[3], t, tr, depth - 1, projs)
+        elif k == "agg":
+            self.aggregate(fn, str(root[1]).startswith("closure:"), list(root[2]), tr, depth - 1, projs)
+        elif k == "cast":
+            self.ap(fn, root[2], tr, depth - 1, projs)
+        elif k in ("binop", "unop", "discr", "const", "fn"):
+            pass
+        else:
+            self.leaf("?", "%s" % (k,))
 
-    def apply(self, fn, farg, payload_ops, tr, depth):
+    def aggregate(self, fn, is_closure, ops, tr, depth, projs):
+        if is_closure:
+            self.leaf("?", "closure value")
+            return
+        if projs and str(projs[0]).isdigit() and int(projs[0]) < len(ops):
+            self.ap(fn, ops[int(projs[0])], tr, depth, projs[1:])
+            return
+        if projs:
+            self.leaf("?", "field %s of an aggregate" % (projs[0],))
+            return
+        for o in ops:        # Some{x}, (a, b): what is put in flows on
+            self.ap(fn, o, tr, depth, ())
+
+    def apply(self, fn, farg, payload_ops, tr, depth, suffix):
         """A function value applied to the payload: a fn item is a producer, a closure is walked."""
         c = const_of(farg)
         if c is not None and "fndef" in c:
             path = callee_name(c["fndef"])
             g = self.F.fns.get(c["fndef"].get("id"))
             if g is not None and g.crate == self.crate and not g.raw.get("public") and not g.raw.get("impl_trait"):
-                self.descend(g, [tr(fn.apath(o)) for o in payload_ops], depth)
+                self.descend(g, [tr(fn.apath(o)) for o in payload_ops], depth, None, suffix)
                 return
-            self.out.append((path, [tr(fn.apath(o)) for o in payload_ops]))
+            self.leaf(path, [tr(fn.apath(o)) for o in payload_ops])
             return
         ap = fn.apath(farg)
         if ap[0][0] == "agg" and str(ap[0][1]).startswith("closure:") and not ap[1]:
@@ -124,23 +167,23 @@ class Walk:
             if g is not None:
                 captured = [tr(a) for a in ap[0][2]]
                 args = [tr(fn.apath(o)) for o in payload_ops]
-                self.descend(g, args, depth, captured)
+                self.descend(g, args, depth, captured, suffix)
                 return
-        self.out.append(("?", "function value %s" % ap_str(ap)[:80]))
+        self.leaf("?", "function value %s" % ap_str(ap)[:80])
 
-    def descend(self, g, args, depth, captured=None):
-        """Producers of g's return value; g's parameters stand for `args` (closures: parameter 1 is the environment)."""
+    def descend(self, g, args, depth, captured=None, suffix=()):
+        """Sources of g's return value; g's parameters stand for `args` (closures: parameter 1 is the environment)."""
         if captured is not None:
             argmap = {i + 2: a for i, a in enumerate(args)}
             tr2 = lambda ap: _closure_subst(subst_ap(ap, argmap), captured)
         else:
             argmap = {i + 1: a for i, a in enumerate(args)}
             tr2 = lambda ap: subst_ap(ap, argmap)
-        self.place(g, 0, tr2, depth - 1)
+        self.ap(g, (("local", 0), ()), tr2, depth - 1, suffix)
 
-    def call(self, fn, bb, t, tr, depth):
+    def call(self, fn, bb, t, tr, depth, suffix=()):
         if "callee" not in t:
-            self.out.append(("?", "indirect call at %s" % fn.where(bb)))
+            self.leaf("?", "indirect call at %s" % fn.where(bb))
             return
         c = t["callee"]
         name = callee_name(c)
@@ -150,30 +193,43 @@ class Walk:
             if g is not None:
                 ap = fn.apath(t["args"][0])
                 captured = [tr(a) for a in ap[0][2]] if ap[0][0] == "agg" else []
-                self.descend(g, [tr(fn.apath(a)) for a in t["args"][1:]], depth, captured)
+                self.descend(g, [tr(fn.apath(a)) for a in t["args"][1:]], depth, captured, suffix)
                 return
-        for suffix, idxs in PASS.items():
-            if name.endswith(suffix):
+        for sfx, idxs in PASS.items():
+            if name.endswith(sfx):
                 for i in idxs:
                     if i < len(t["args"]):
-                        self.operand(fn, t["args"][i], tr, depth)
+                        self.operand(fn, t["args"][i], tr, depth, suffix)
                 return
-        for suffix, (pi, fi) in APPLY.items():
-            if name.endswith(suffix):
-                payload = [t["args"][pi]] if pi is not None else []
-                self.apply(fn, t["args"][fi], payload, tr, depth)
-                for i in APPLY_ALSO.get(suffix, ()):
-                    self.operand(fn, t["args"][i], tr, depth)
+        for sfx, (pi, fi) in APPLY.items():
+            if name.endswith(sfx):
+                payload_ = [t["args"][pi]] if pi is not None else []
+                self.apply(fn, t["args"][fi], payload_, tr, depth, suffix)
+                for i in APPLY_ALSO.get(sfx, ()):
+                    self.operand(fn, t["args"][i], tr, depth, suffix)
                 return
         g = self.F.fns.get(c.get("id"))
         if g is not None and g.crate == self.crate and not g.raw.get("public") and not g.raw.get("impl_trait") and "{closure" not in g.path:
-            self.descend(g, [tr(fn.apath(a)) for a in t["args"]], depth)
+            self.descend(g, [tr(fn.apath(a)) for a in t["args"]], depth, None, suffix)
             return
-        self.out.append((name, [tr(fn.apath(a)) for a in t["args"]]))
+        args = [tr(fn.apath(a)) for a in t["args"]]
+        if suffix:
+            # a part of what the call returned: a plain value, rooted at the call
+            self.leaf("value", (("call", name, tuple(args), bb), tuple(suffix)))
+        else:
+            self.leaf(name, args)
 
 
 def producers(F, fn, operand, depth=8):
     """[(callee path, [argument access paths in terms of fn])] - see the module text."""
+    w = Walk(F, fn.crate)
+    w.operand(fn, operand, lambda ap: ap, depth)
+    return [(k, (ap_str(v) if k == "value" else v)) for k, v in w.out]
+
+
+def sources(F, fn, operand, depth=10):
+    """Like producers, with the leaves that are plain values given as access paths: [('value', access path) | (callee, args) |
+    ('?', text)]."""
     w = Walk(F, fn.crate)
     w.operand(fn, operand, lambda ap: ap, depth)
     return w.out
